@@ -141,17 +141,27 @@ func (ft *FileTransfer) String() string {
 	return fmt.Sprintf("%-21s %.3s%%  %6s\n", trunc, ft.percentComplete(), ft.formattedTransferSize())
 }
 
+// transferSize returns the transfer size the client announced; a request that carried no size field, or one that is
+// not four bytes long, counts as 0 (the client info text must not fail on it).
+func (ft *FileTransfer) transferSize() uint32 {
+	if len(ft.TransferSize) != 4 {
+		return 0
+	}
+
+	return binary.BigEndian.Uint32(ft.TransferSize)
+}
+
 func (ft *FileTransfer) percentComplete() string {
 	ft.bytesSentCounter.mux.Lock()
 	defer ft.bytesSentCounter.mux.Unlock()
 	return fmt.Sprintf(
 		"%v",
-		math.RoundToEven(float64(ft.bytesSentCounter.Total)/float64(binary.BigEndian.Uint32(ft.TransferSize))*100),
+		math.RoundToEven(float64(ft.bytesSentCounter.Total)/float64(ft.transferSize())*100),
 	)
 }
 
 func (ft *FileTransfer) formattedTransferSize() string {
-	sizeInKB := float32(binary.BigEndian.Uint32(ft.TransferSize)) / 1024
+	sizeInKB := float32(ft.transferSize()) / 1024
 	if sizeInKB >= 1024 {
 		return fmt.Sprintf("%.1fM", sizeInKB/1024)
 	} else {
